@@ -62,6 +62,7 @@ class FunctionResult:
 
 
 def verify_function(prog, db, q, contract, case=None):
+    case = case or {}
     import itertools
     from . import values as _V
     _V._ctr = itertools.count()      # deterministic symbol names per function (solver behaviour depends on them)
@@ -72,6 +73,7 @@ def verify_function(prog, db, q, contract, case=None):
         fr.degraded = 'function %s no longer exists' % q
         return fr
     ex.cur = fi
+    ex.case_tag = ('@' + ','.join('%s=%s' % (k, case[k]) for k in sorted(case))) if case else ''
     ex.cur_node_stack = [fi.node]
     ex.cur_qual_stack = [q]
     st = State()
@@ -81,7 +83,18 @@ def verify_function(prog, db, q, contract, case=None):
         real_params = [a.arg for a in fi.node.args.args]
         defaults = fi.node.args.defaults
         for k, p in enumerate(real_params):
-            if p in cparams:
+            if p in case:
+                cv = case[p]
+                if cv == 'none':
+                    env[p] = None
+                elif cv == 'int':
+                    env[p] = fresh_scalar(INT, p)
+                elif cv == 'empty_dict':
+                    env[p] = st.alloc(SDict(SSet.empty(), lambda k: None), 'param')
+                    ex.frame_roots[env[p].oid] = p
+                else:
+                    env[p] = cv
+            elif p in cparams:
                 ann = cparams[p]
                 t = eval_type(ann)
                 env[p] = make_param(ex, st, t, p)
@@ -130,6 +143,9 @@ def verify_function(prog, db, q, contract, case=None):
                 loc.env['result'] = v
                 if 'self' in pre['env']:
                     loc.env['self'] = pre['env']['self']
+                for cl in contract.of('let'):
+                    for k2, a in cl.kw.items():
+                        loc.env[k2] = ex.evs(a, loc)
                 apply_hints(ex, contract, 'return', loc, s)
                 for cl in contract.of('ensures'):
                     for a in cl.args:
